@@ -57,6 +57,9 @@ MCLimitsOf(f, e) ==
 MCSizes    == {0, 1, 2}
 SimSizes   == {0, 1, 2, 3, 5}
 MCRDelims  == {<<10>>, DASH2, CRLF}
+QSizes     == {1, 2}
+QRDelims   == {<<10>>, DASH2}
+FewPos     == {1, 3, 20}
 ExpSizes   == {1}
 ExpRDelims == {DASH2}
 NoSizes    == {}
@@ -110,13 +113,15 @@ MCInit  == Init /\ h = <<>> /\ esel = NoEnv
 SimInit == Init /\ h = <<>> /\ esel \in EnvPool
 MCvars == <<vars, h, esel>>
 
-(* action properties restated over the instance's variables *)
+(* Multipart!BufferLimitExact and Multipart!Progress restated so that TLC need not re-evaluate the
+   actions on every transition: a step from st = "part" whose last'.op is get_data / get_text is a
+   GetData / GetText step, a step from "iter"/"part" to "part" whose last'.op is "next" is a NextPart step *)
 MCBufferLimitExact ==
-    [][((GetData \/ GetText) /\ cache = NONE /\ last'.out # "none") =>
+    [][(st = "part" /\ last'.op \in {"get_data", "get_text"} /\ cache = NONE /\ last'.out # "none") =>
           /\ (last'.why = "size") = (pend - pos > lim.buf)
           /\ (Sent /\ pos = pstart) => ((last'.why = "size") = (Len(form[yielded].content) > lim.buf))
           /\ last'.out = "ok" => (pos' = pend /\ last'.res = Slice(body, pos, pend))]_MCvars
-MCProgress == [][NextPart => (pos' > pos \/ st' \in {"end", "error"})]_MCvars
+MCProgress == [][(st \in {"iter", "part"} /\ last'.op = "next" /\ st' = "part") => pos' > pos]_MCvars
 
 (* behaviour export: one JSON object per finished iteration *)
 Emit == (st \in {"end", "error"} \/ (Len(h) = Depth /\ st \in {"iter", "part"})) =>
